@@ -372,6 +372,8 @@ class LoopSpec:
     havoc: object
     variant: object = None
     name: str = "inv"
+    break_inv: object = None  # for-loops: state established by a `break` at iteration k
+    after_body: object = None  # ghost updates / definitional assumptions after the body ran once
 
 
 @dataclass
@@ -413,7 +415,7 @@ class Interp:
         self.fresh_counter = 0
         self.call_stack = []
         self.loop_counters = {}
-        self.feas_timeout_ms = 2000
+        self.feas_timeout_ms = 300
         from . import values
 
         values.set_current(self)
@@ -465,9 +467,13 @@ class Interp:
         self.loop_counters = {}
 
     def feasible(self, extra):
+        """Over-approximate path feasibility (quantified facts are dropped: dropping constraints can only keep
+        more paths, whose obligations then have unsatisfiable hypotheses and are discharged trivially)."""
         s = z3.Solver()
         s.set("timeout", self.feas_timeout_ms)
-        s.add(*self.cond)
+        for c in self.cond:
+            if not _has_quantifier(c):
+                s.add(c)
         s.add(extra)
         return s.check() != z3.unsat
 
@@ -785,18 +791,24 @@ class Interp:
             self.exec_block(st.orelse, env)
 
     def cut_for(self, st, env, seq, key):
-        """for-loop over a symbolic-length sequence, cut at the contract's invariant."""
+        """for-loop over a symbolic-length sequence, cut at the contract's invariant.
+
+        establish inv(0); havoc what the loop modifies; assume inv(k) and 0 <= k < n; run the real body once;
+        re-establish inv(k+1)  (a `break` must establish break_inv(k) instead);
+        continue after the loop from a havoc'd exit state with  (k == n and inv(n))  or  (break_inv(k), k < n)."""
         spec = self.loop_specs.get(key)
         if spec is None:
             raise Untranslatable(f"loop {key} over a symbolic-length sequence has no invariant in the contract")
         fn, tag = key
+        ordn = tag.split("#")[1]
         n = seq.length
-        self.emit(f"{fn}/{spec.name}{tag[3:]}/init", "inv/init", spec.inv(z3.IntVal(0), env))
+        entry = dict(env)
+        self.emit(f"{fn}/{spec.name}#{ordn}/init", "inv/init", spec.inv(z3.IntVal(0), env, entry))
         k = self.fresh("k", "int")
         saved = len(self.cond)
         henv = spec.havoc(k, env)
         self.assume(z3.And(k >= 0, k < n))
-        self.assume(spec.inv(k, henv))
+        self.assume(spec.inv(k, henv, entry))
         self.assign(st.target, seq.at(k), henv)
         broke = False
         try:
@@ -805,24 +817,31 @@ class Interp:
             broke = True
         except _Continue:
             pass
+        if spec.after_body is not None:
+            spec.after_body(k, henv, entry, broke)
         if broke:
-            on_break = getattr(spec, "on_break", None)
-            if on_break is None:
+            if spec.break_inv is None:
                 raise Untranslatable(f"break in cut loop {key} without a break contract")
-            on_break(self, k, henv)
+            self.emit(f"{fn}/{spec.name}#{ordn}/break", "inv/break", spec.break_inv(k, henv, entry))
         else:
-            self.emit(f"{fn}/{spec.name}{tag[3:]}/step", "inv/step", spec.inv(k + 1, henv))
+            self.emit(f"{fn}/{spec.name}#{ordn}/step", "inv/step", spec.inv(k + 1, henv, entry))
         del self.cond[saved:]
         kx = self.fresh("kexit", "int")
         xenv = spec.havoc(kx, env)
-        exit_cond = getattr(spec, "exit", None)
-        if exit_cond is not None:
-            self.assume(exit_cond(kx, xenv))
+        by_break = False
+        if spec.break_inv is not None:
+            by_break = self.decide(self.fresh("exit_by_break", "bool"))
+        if by_break:
+            self.assume(z3.And(kx >= 0, kx < n))
+            self.assume(spec.break_inv(kx, xenv, entry))
         else:
             self.assume(kx == n)
-        self.assume(spec.inv(kx, xenv))
+            self.assume(kx >= 0)
+            self.assume(spec.inv(kx, xenv, entry))
         for name in list(xenv.keys()):
             env[name] = xenv[name]
+        env["__exit_k"] = kx
+        env["__exit_by_break"] = by_break
 
     def s_While(self, st, env):
         key = self._loop_key("while")
@@ -1202,7 +1221,7 @@ class Interp:
             return False
 
         def b_sum(s, start=0):
-            if isinstance(s, V.SymSeq) and not s.is_concrete():
+            if isinstance(s, V.SymList) or (isinstance(s, V.SymSeq) and not s.is_concrete()):
                 return s.sum(start)
             tot = start
             for x in it.iterate(s):
@@ -1211,9 +1230,11 @@ class Interp:
 
         def b_min(*a, **k):
             if len(a) == 1:
-                a = list(it.iterate(a[0])) if not hasattr(a[0], "sym_min") else None
-                if a is None:
+                if hasattr(a[0], "sym_min"):
                     return a[0].sym_min()
+                a = list(it.iterate(a[0]))
+                if not a:
+                    raise PyRaise("ValueError", "min() of empty sequence")
             best = a[0]
             for x in a[1:]:
                 if it.truth(x < best):
@@ -1289,6 +1310,27 @@ class Interp:
                  RuntimeError="RuntimeError", KeyError="KeyError", IndexError="IndexError", Exception="Exception",
                  True_=True, None_=None, NotImplemented=NotImplemented, Ellipsis=Ellipsis)
         return b
+
+
+def _has_quantifier(e, _cache={}):
+    i = e.get_id()
+    if i in _cache:
+        return _cache[i]
+    seen, stack, r = set(), [e], False
+    while stack:
+        x = stack.pop()
+        if x.get_id() in seen:
+            continue
+        seen.add(x.get_id())
+        if z3.is_quantifier(x):
+            r = True
+            break
+        if z3.is_app(x):
+            stack.extend(x.children())
+    if len(_cache) > 20000:
+        _cache.clear()
+    _cache[i] = r
+    return r
 
 
 class _SymComp(Exception):
